@@ -4,6 +4,8 @@
      x/community/abci.go                     (BeginBlocker: switch first, then payout)
      x/kavadist/keeper/mint.go               (MintPeriodInflation, mintIncentivePeriods, mintInflationaryCoins)
      x/kavadist/keeper/infrastructure.go     (mintInfrastructurePeriods: the same switch)
+       -- as of fix commits 26e660a58, f162bf2f3 (case 2 counts from max(prev, Start)) and
+          596bf9063 (a zero amount returns a well-formed zero coin instead of sdk.Coin{})
      app/app.go SetOrderBeginBlockers        (community, then x/mint, then kavadist)
    over an abstract x/bank (four ukava balances and the supply), x/mint (the
    amount it mints is an oracle value, forced to 0 once InflationMax = 0) and
